@@ -431,6 +431,11 @@ class EnumType(GraphQLLeafType, NamedType):
         self.values = []  # type: List[EnumValue]
         self._values = {}  # type: Dict[str, EnumValue]
         self._reverse_values = {}  # type: Dict[Any, EnumValue]
+        # 0 == False and 1 == True == 1.0 share a dict slot: keep a second
+        # map keyed by the exact type so that such members stay distinct.
+        self._typed_reverse_values = (
+            {}
+        )  # type: Dict[Tuple[type, Any], EnumValue]
 
         for v in values:
             v = EnumValue.from_def(v)
@@ -440,6 +445,7 @@ class EnumType(GraphQLLeafType, NamedType):
 
             self.values.append(v)
             self._reverse_values[v.value] = self._values[v.name] = v
+            self._typed_reverse_values.setdefault((type(v.value), v.value), v)
 
     def get_value(self, name: str) -> Any:
         """
@@ -475,7 +481,10 @@ class EnumType(GraphQLLeafType, NamedType):
             UnknownEnumValue: when the value is unknown
         """
         try:
-            return self._reverse_values[value].name
+            try:
+                return self._typed_reverse_values[(type(value), value)].name
+            except KeyError:
+                return self._reverse_values[value].name
         except KeyError:
             raise UnknownEnumValue(
                 "Invalid value %r for enum %s" % (value, self.name)
